@@ -64,6 +64,8 @@ def ledger_env(ctx, ledger):
         return {}
     path = os.path.join(common.VERIF, ledger)
     if os.environ.get("VERIF_DO_RECORD") == "1":
+        if os.path.exists(path + ".new"):
+            os.remove(path + ".new")
         return {"VERIF_RECORD": path + ".new"}
     return {"VERIF_LEDGER": path}
 
@@ -77,10 +79,10 @@ def ledger_finish(ctx, ledger, st):
     if os.environ.get("VERIF_DO_RECORD") == "1":
         new = path + ".new"
         if os.path.exists(new):
-            lines = sorted(set(open(new, errors="replace").read().splitlines()))
+            lines = sorted(set(l for l in open(new, errors="replace").read().split("\n") if l.strip()))
             prev = []
             if os.path.exists(path) and os.environ.get("VERIF_RECORD_MERGE") == "1":
-                prev = open(path, errors="replace").read().splitlines()
+                prev = [l for l in open(path, errors="replace").read().split("\n") if l.strip()]
             allv = sorted(set(lines + prev))
             if len(allv) > 20000:   # large ledger: keep hash + root-cause label only
                 allv = sorted(set(" ".join(l.split(" ", 2)[:2]) for l in allv))
@@ -113,6 +115,8 @@ def standard(ctx, props, sub, label, extra_args=(), lists=("M",), timeout=3000,
     for p in ([props] if isinstance(props, str) else props):
         props_obligations(ctx, p)
     hb = common.build_harness()
+    if model:
+        common.ensure_driver()
     flabel = re.sub(r"[^A-Za-z0-9_]", "_", label)
     cases = ctx.path("cases_%s.v" % flabel)
     stats = ctx.path("stats_%s.json" % flabel)
